@@ -70,7 +70,11 @@ def op_hostpath(c):
     from xdis.bytecode import Bytecode
     from xdis.disasm import get_opcode, disco
     from xdis.codetype import codeType2Portable
-    saved = xdis.load.PYTHON_MAGIC_INT
+    # the switch of the native fast path: load.py compares the file's magic with its module global PYTHON_MAGIC_INT
+    has_switch = hasattr(xdis.load, "PYTHON_MAGIC_INT")
+    saved = getattr(xdis.load, "PYTHON_MAGIC_INT", None)
+    if c["path"] == "portable" and not has_switch:
+        raise RuntimeError("xdis.load has no PYTHON_MAGIC_INT: the harness cannot switch the fast path off")
     out = {"host": list(sys.version_info[:2]), "path": c["path"]}
     so = io.StringIO()
     try:
@@ -122,5 +126,6 @@ def op_hostpath(c):
         tb = traceback.extract_tb(e.__traceback__)[-1]
         out["raised"] = type(e).__name__ + ": " + str(e)[:200] + " at %s:%s" % (tb[0], tb[1])
     finally:
-        xdis.load.PYTHON_MAGIC_INT = saved
+        if has_switch:
+            xdis.load.PYTHON_MAGIC_INT = saved
     return out
